@@ -1030,6 +1030,9 @@ package mcp
 //@   ensures @defaulted-value-is-what-is-returned calls(defaults) == 1 && result.1 == nil ==> calls(encode) == 1 && callResult(encode, 1, 1) == nil && result.0 == callResult(encode, 1, 0)
 //@   ensures @untouched-value-passes-through calls(defaults) == 0 && result.1 == nil ==> result.0 == data
 //@   assert at call Validate: @defaults-come-first calls(validate) == 0
+// The schema library fills defaults into the object in place: the object it is given is never a nil map ("arguments": null
+// decodes to one) - writing into a nil map panics.
+//@   assert at call ApplyDefaults: @defaults-are-never-applied-to-a-nil-object !forOutput ==> local(v) != nil
 
 // ---------------------------------------------------------------------------------------------
 // C10 / C08: the streamable server connection (routing of outgoing messages, stream state)
